@@ -42,6 +42,9 @@ type genOpts struct {
 
 // genType builds a random type; struct types get atlas entries (unless c is told otherwise).
 func (g *G) genType(c *objCase, o genOpts, depth int) *TD {
+	if o.embedded && depth <= 2 && g.chance(0.04) {
+		return c.zooEmb(g)
+	}
 	pick := g.intn(20)
 	if depth >= 3 && pick >= 8 {
 		pick = g.intn(8)
@@ -183,6 +186,21 @@ func (c *objCase) zooStructEntry(id int, names []string) *TD {
 			ad.flds = append(ad.flds, fldD{name: names[i], route: []int{i}, t: f})
 		}
 		c.atl.entries = append(c.atl.entries, ad)
+	}
+	return t
+}
+
+// zooEmb: the struct with real embedded fields and a struct map over the promoted fields (some omitempty)
+func (c *objCase) zooEmb(g *G) *TD {
+	t := c.env.addZoo(28)
+	if !c.hasEntry(t) {
+		in, pt := t.field[0], t.field[1].elem
+		c.atl.entries = append(c.atl.entries, &AD{t: t, kind: "smap", flds: []fldD{
+			{name: "p", route: []int{0, 0}, t: in.field[0], omit: g.chance(0.3)},
+			{name: "r", route: []int{1, 0}, t: pt.field[0], omit: g.chance(0.3)},
+			{name: "k", route: []int{2}, t: t.field[2]},
+			{name: "q", route: []int{0, 1}, t: in.field[1], omit: g.chance(0.3)},
+		}})
 	}
 	return t
 }
